@@ -97,15 +97,22 @@ def check(run):
            "" if init and inc and app else "rend() must number grams 0,1,2.. (gn = 0; one append and gn += 1 per gram)")
     run.floor("C20.R5", 4)
     # rend: the gram count is computed from the byte length of the buffer that is sliced
-    mparam = rend.params()[0][1]
+    segloops = [n for n in walk_local(rend.node) if isinstance(n, ast.While) and isinstance(n.test, ast.Name)
+                and any(isinstance(d, ast.Delete) and isinstance(d.targets[0], ast.Subscript) and dotted(d.targets[0].value) == n.test.id for d in ast.walk(n))]
+    mparam = segloops[0].test.id if segloops else rend.params()[0][1]       # the buffer that is sliced into grams
     mem_defs = [n for n in flat(rend.node.body) if isinstance(n, ast.Assign) and dotted(n.targets[0]) == mparam]
-    ml = [n for n in flat(rend.node.body) if isinstance(n, ast.Assign) and isinstance(n.targets[0], ast.Name) and unparse(n.value) == "len(%s)" % mparam]
+    ml = [n for n in flat(rend.node.body) if isinstance(n, ast.Assign) and isinstance(n.targets[0], ast.Name) and isinstance(n.value, ast.Call)
+          and dotted(n.value.func) == "len" and len(n.value.args) == 1]
+    lens_other = [n for n in ml if dotted(n.value.args[0]) != mparam]
+    ml = [n for n in ml if dotted(n.value.args[0]) == mparam]
     mlv = ml[0].targets[0].id if ml else None
     # the gram count is the ceil() expression that is later written into the zeroth head
     cnts = [n for n in flat(rend.node.body) if isinstance(n, ast.Assign) and isinstance(n.targets[0], ast.Name)
             and any(isinstance(c, ast.Call) and (dotted(c.func) or "").endswith("ceil") for c in ast.walk(n.value))]
+    othervars = {n.targets[0].id for n in lens_other}
     ok = bool(mem_defs) and bool(ml) and "encode" in unparse(mem_defs[0].value) and mem_defs[0].lineno < ml[0].lineno \
-        and bool(cnts) and all(any(isinstance(x, ast.Name) and x.id == mlv for x in ast.walk(n.value)) for n in cnts)
+        and bool(cnts) and all(any(isinstance(x, ast.Name) and x.id == mlv for x in ast.walk(n.value)) for n in cnts) \
+        and not any(isinstance(x, ast.Name) and x.id in othervars for n in cnts for x in ast.walk(n.value))
     run.ob("C20.R5", "%s:count-from-byte-length" % rend.fq, ok, run.site(rend, ml[0]) if ml else run.site(rend),
            "" if ok else "the gram count must be computed from len() of the encoded byte buffer that the loop slices (characters != bytes for non-ASCII memos)")
     # R7 order independence: accepting a gram must not depend on per-memo state written by other grams
